@@ -243,7 +243,14 @@ def run_case(ctx, rng, graph, gkind, i):
             if not (abs(d0) <= 1e-6 * max(1.0, nrm)):
                 ctx.fail("distance_at_the_mean_is_not_zero", cls="GMRFModel", mech="object_mean:" + ("after_increment" if step else "init"), got=d0)
             more = (gmrfmon.make_data(rng, int(rng.integers(2, 6)), V, k) + rng.normal(size=V * k)) * unit
-            im.increment([ms.PointCloud(row.reshape(V, k)) for row in more])
+            if variant == "plain" and rng.random() < 0.4:
+                # the new annotations come as whole pixel positions in a compact integer type
+                more = np.round((more - more.min()) / max(1e-300, float(np.ptp(more))) * 240.0 + 5.0)
+                idt_ = [np.uint8, np.int16, np.uint16][rng.integers(0, 3)]
+                im.increment([ms.PointCloud(row.reshape(V, k).astype(idt_)) for row in more])
+                ctx.bump("integer_typed_object_increments")
+            else:
+                im.increment([ms.PointCloud(row.reshape(V, k)) for row in more])
             fed = np.vstack([fed, more])
         mv = im.mean().as_vector()
         if _amax(mv - fed.mean(0)) > 1e-9 * max(unit, float(np.abs(fed).max())):
